@@ -5,6 +5,11 @@ HERE = os.path.dirname(os.path.dirname(os.path.abspath(__file__)))
 
 TECH = "deterministic simulation with fault injection"
 CLAIMED = {
+ "C20": dict(
+   level="exploration", design="5/C20",
+   text="Seeded search over per-call socket outcome scripts {accept all, accept k of n, EAGAIN, fatal} x message sequences x thread interleavings: on the controller side the real DeferredSender.run loop runs on an engine-controlled thread against the real Connection.send on the scheduler thread (of_01.py traced at line granularity, real OpenFlow task loop for the closed-exactly-once part); on the switch side the real IO worker/loop with send and send_fast. Invariant at every yield point: bytes accepted by each socket are a prefix of the queued stream; at quiescence after the script ends they are the whole stream; after a fatal error exactly one ConnectionDown / close-handler call.",
+   note="Line-granularity pre-emption in of_01.py plus intercepted primitives; scripts sampled; select() on a closed socket raises as the real one does.",
+   technique=TECH + ": socket-fault scripts x controlled-thread interleavings with a byte-stream prefix invariant"),
  "C07": dict(
    level="exploration", design="5/C07, 3.4",
    text="Seeded search over thread interleavings: the real Scheduler.run loop, the real select-hub thread (both hub modes) and 2-3 foreign threads are real Python threads of which the engine lets exactly one run, pre-empting at every traced source line of recoco.py and at every Lock/Event/Queue/select (random schedules with switch probability 0.05-0.6 and PCT priority schedules of depth 1-4). Workloads: call-later hand-off, concurrent wake of a blocked task, synchronized sections, cooperative locks. Oracles: exactly once, on the scheduler thread, per-thread order, zero virtual latency (lost wake-ups show up as a 2 s poll rescue), queued at most once at every yield point, no task step inside a section, lock exclusion/hand-over.",
